@@ -89,6 +89,7 @@ Definition pOp : P op :=
   | 9 => do f <- pN;; do c <- pN;; do cb <- pN;; do e <- pEaddr;; pret (AddRespCb e f c cb)
   | 10 => do f <- pN;; do cb <- pN;; do e <- pEaddr;; pret (AddResultCb e f cb)
   | 11 => do t <- pN;; pret (QFactory t)
+  | 12 => do late <- pOptN;; do pf <- pN;; do ps <- pList pN;; do d <- pDgram;; pret (ParArrive ps d late pf)
   | _ => pfail
   end.
 
